@@ -43,7 +43,7 @@ class FnSpec:
     """Contract for one function (insert-only)."""
 
     def __init__(self, ret=None, sig="", loops=None, at=None, ghost=False, body_start="",
-                 rewrites=None, attrs="", no_unwind=True, generics=None):
+                 rewrites=None, attrs="", no_unwind=True, generics=None, try_explicit=False):
         self.ret = ret            # name for the return value:  -> T   becomes  -> (ret: T)
         self.sig = sig            # requires/ensures/decreases text, inserted before the body `{`
         self.loops = loops or {}  # ordinal (1-based) -> invariant/decreases text, before loop body `{`
@@ -52,9 +52,12 @@ class FnSpec:
         self.body_start = body_start  # proof text inserted right after the body's `{`
         self.rewrites = rewrites or []  # list of (rule, regex, replacement[, count]) applied to the fn text
         self.attrs = attrs        # attributes inserted before the fn (e.g. #[verifier::...])
+        self.try_explicit = try_explicit  # T-TRY: write `E?` out as its match (the installed Verus knows nothing of the converted error of `?`)
 
 
-PURE_LOG = {"as_raw", "display", "to_string", "to_str", "unwrap_or_default", "len", "as_str", "Some", "code", "as_secs", "identifier_list", "get_id"}
+# method / function names whose calls are total and without effect: a log message made only of these is dropped whole
+PURE_LOG = {"as_raw", "display", "to_string", "to_str", "unwrap_or_default", "len", "as_str", "Some", "code", "as_secs", "identifier_list", "get_id",
+            "get_one", "map", "unwrap_or", "is_some", "is_none", "clone", "to_owned", "as_ref", "is_empty", "as_u16", "as_millis"}
 def fmt_to_cat(lit, cat="crate::vb64::cat2"):
     """T-FMT (exact form): a format string whose placeholders are all `{ident}` naming String/&str variables is a
     concatenation; returns the nested crate::vb64::cat2 expression, or None when the string has any other shape."""
@@ -136,6 +139,8 @@ class Piece:
         if mode != "stub":
             text = self._expand_macros(text)
             text = self._inline_new_helpers(text, real, rimpl if (rimpl is not None and ritem is not rimpl) else (ritem if ritem.kind == "impl" else None))
+        if mode != "stub" and any(getattr(fs, "try_explicit", False) for fs in self.fnspecs.values()):
+            text = self._desugar_try(text)
         if mode != "stub":
             text = self._merge_guards(text)
             text = self._desugar_ctrl(text)
@@ -314,6 +319,61 @@ class Piece:
                                       "from": text[start:toks[kc].end], "to": exp})
             text = text[:start] + exp + text[toks[kc].end:]
         raise Undecided("macro expansion did not terminate")
+
+    def _desugar_try(self, text):
+        """T-TRY (pre-pass, opt-in): `E?` -> `(match E { Ok(v__) => v__, Err(e__) => { return Err(From::from(e__)); } })`, the definition of
+        `?` on a Result in a function returning a Result.  Used where a property speaks about the converted error."""
+        for _round in range(400):
+            toks = lex(text)
+            q = next((k for k, t in enumerate(toks) if t.text == "?" and k > 0 and toks[k - 1].text in (")", "]", "}") or
+                      (t.text == "?" and k > 0 and toks[k - 1].kind == "ident")), None)
+            if q is None:
+                return text
+            # start of the postfix chain ending at q-1
+            j = q - 1
+            pairs = {")": "(", "]": "[", "}": "{"}
+            while True:
+                tx = toks[j].text
+                if tx in pairs:
+                    depth, o = 0, pairs[tx]
+                    while True:
+                        if toks[j].text == tx:
+                            depth += 1
+                        elif toks[j].text == o:
+                            depth -= 1
+                            if depth == 0:
+                                break
+                        j -= 1
+                    # a call / index / turbofish belongs to what precedes it
+                    if toks[j - 1].kind == "ident" or toks[j - 1].text in (")", "]", ">", "!"):
+                        j -= 1
+                        if toks[j].text == ">":
+                            # turbofish `::<..>`
+                            depth = 0
+                            while True:
+                                if toks[j].text == ">":
+                                    depth += 1
+                                elif toks[j].text == "<":
+                                    depth -= 1
+                                    if depth == 0:
+                                        break
+                                j -= 1
+                            j -= 3   # `::` before `<`
+                        continue
+                    break
+                if toks[j].kind in ("ident", "lit"):
+                    if toks[j - 1].text == "." or (toks[j - 1].text == ":" and toks[j - 2].text == ":"):
+                        j -= 2 if toks[j - 1].text == "." else 3
+                        continue
+                    break
+                raise Undecided("T-TRY: unsupported operand of `?`")
+            if toks[j].kind == "ident" and toks[j].text in ("await",):
+                raise Undecided("T-TRY: `.await?`")
+            e = text[toks[j].start:toks[q - 1].end]
+            new = "(match " + e + " { Ok(v__) => v__, Err(e__) => { return Err(From::from(e__)); } })"
+            self.rewrites_log.append({"rule": "T-TRY", "file": self.relpath, "item": self.spec, "from": e + "?", "to": new})
+            text = text[:toks[j].start] + new + text[toks[q].end:]
+        raise Undecided("T-TRY did not terminate")
 
     def _merge_guards(self, text):
         """T-CTRL (guard merge, pre-pass): the installed Verus loses the state after a `match` with a guarded arm.  The one
@@ -595,6 +655,25 @@ class Piece:
                 if toks[k].text == "Duration" and toks[k + 1].text == ":" and toks[k + 2].text == ":" and toks[k + 3].text in ("ZERO", "MAX") \
                         and toks[k - 1].text != ":":
                     self._add(toks[k].start, toks[k + 3].end, "crate::duration_zero()" if toks[k + 3].text == "ZERO" else "crate::duration_max()", "T-CONST-STD", order=-99)
+        # T-STATIC: a function-local `static NAME: TYPE = INIT;` keeps its content from one call to the next: within one call it is a
+        # local whose content at entry is unknown (OnceLock is modelled in prelude stdx)
+        if "stdx" in self.unit.preludes:
+            k = kb + 1
+            while k < k1:
+                if toks[k].text == "static" and toks[k + 1].kind == "ident" and toks[k + 2].text == ":" and toks[k - 1].text in (";", "{", "}"):
+                    j = k + 3
+                    while toks[j].text != "=" or toks[j + 1].text == "=":
+                        j += 1
+                    e = j
+                    while toks[e].text != ";":
+                        if toks[e].text in OPEN:
+                            e = match_close(toks, e)
+                        e += 1
+                    ty = self.sf.text[toks[k + 3].start:toks[j].start].strip()
+                    ty = re.sub(r"^(?:std::sync::)?OnceLock<", "crate::vsync::OnceLock<", ty)
+                    self._add(toks[k].start, toks[e].end, f"let {toks[k + 1].text}: {ty} = crate::vsync::unknown();", "T-STATIC")
+                    k = e
+                k += 1
         # T-LOG: log::level!( .. )
         k = kb
         while k < k1:
@@ -843,6 +922,9 @@ class Piece:
             wstart = toks[kf].start
             wtext = self.sf.text[wstart:fend]
             ms = list(re.finditer(pat, wtext, re.S))
+            # text inside a log macro that is dropped (T-LOG) is not rewritten
+            logs = [e for e in self.edits if e.rule == "T-LOG"]
+            ms = [m for m in ms if not any(e.start <= wstart + m.start() and wstart + m.end() <= e.end for e in logs)]
             if want is not None and len(ms) != want:
                 raise Undecided(f"{fn.name}: rewrite {rule} pattern matched {len(ms)} times, expected {want}")
             for m in ms:
